@@ -33,7 +33,7 @@ fn run(a: &vhcore::Args) -> i32 {
     let mut rep = vhcore::Reporter::from_args(a, "exploration");
     let thorough = a.tier == vhcore::Tier::Thorough;
     let max_edges = env_usize("VH_C09_EDGES", if thorough { 3 } else { 2 });
-    let cap = env_usize("VH_C09_CAP", if thorough { 3 } else { 4 });
+    let cap = env_usize("VH_C09_CAP", 3);
     let sp = space(max_edges);
     let (oracle_values, _) = oracle_self_test(&sp.types, cap);
 
@@ -46,73 +46,38 @@ fn run(a: &vhcore::Args) -> i32 {
     if cases.len() as u64 != oracle_values {
         vhcore::machinery_failure("case list and oracle self-test disagree on the number of values");
     }
+    let plan = stages(&cases, max_edges > 2, env_usize("VH_C09_CHUNK_TYPES", 2500));
     if std::env::var("VH_STATS_ONLY").is_ok() {
-        println!("types={} cases={}", sp.types.len(), cases.len());
+        println!("types={} cases={} stages={:?}", sp.types.len(), cases.len(), plan.iter().map(|s| (s.label.clone(), s.idx.len())).collect::<Vec<_>>());
         return 0;
     }
     let mut pool = Pool::new(a.jobs, vhcore::work_dir("C09"));
     pool.timeout = std::time::Duration::from_secs(1500);
-    let mut evals = 0u64;
     let mut outcomes = vhcore::Distinct::default();
     let mut encodings = vhcore::Distinct::default();
-    let mut total_fail = 0usize;
-    let mut total_confirmed = 0usize;
-    let mut self_check = String::new();
-    let mut packages = 0usize;
-    let mut rebuilt = 0usize;
-    // debug profile on the whole space; thorough adds the release profile on the types of the
-    // quick space (≤ 2 edges)
-    let profiles: Vec<bool> = if thorough { vec![false, true] } else { vec![false] };
-    let release_edges = env_usize("VH_C09_RELEASE_EDGES", 2);
     let mut release_cases = 0u64;
-    for (pi, release) in profiles.iter().enumerate() {
-        let cfg = RunCfg {
-            prefix: format!("c09{}", if *release { "r" } else { "d" }),
-            release: *release,
-            max_cases: env_usize("VH_C09_BATCH", 120).min((cases.len() / (2 * a.jobs.max(1))).max(24)),
-            max_words: 2500,
-        };
-        let sel: Vec<Case> = if *release {
-            cases.iter().filter(|c| c.ty.edges() <= release_edges).cloned().collect()
-        } else {
-            cases.clone()
-        };
-        if *release {
-            release_cases = sel.len() as u64;
-        }
-        let t0 = std::time::Instant::now();
-        let run = run_cases(&pool, &sel, &cfg, pi == 0);
-        eprintln!(
-            "[C09] profile release={release}: {} cases in {} packages ({} rebuilt), {:.1}s wall, {:.1}s summed build+run time",
-            sel.len(),
-            run.packages,
-            run.rebuilt_packages,
-            t0.elapsed().as_secs_f64(),
-            run.compile_millis as f64 / 1000.0
-        );
-        if pi == 0 {
-            self_check = run.self_check.clone();
-        }
-        packages += run.packages;
-        rebuilt += run.rebuilt_packages;
-        for (c, r) in sel.iter().zip(&run.cases) {
-            evals += 1;
+    let camp = run_stages(
+        &mut rep,
+        &pool,
+        &cases,
+        &plan,
+        "c09",
+        env_usize("VH_C09_BATCH", 120),
+        env_usize("VH_C09_BUDGET_S", 660) as u64,
+        &mut |c, r, release| {
             outcomes.add(&format!("{:?}", r.outcome));
+            if release {
+                release_cases += 1;
+            }
             if r.judged.fails.is_empty() && c.canonical.len() >= 2 {
                 encodings.add(&(c.ty.show(), &c.canonical));
             }
-        }
-        let (f, c) = report_failures(&mut rep, &pool, &sel, &run, &cfg, 1);
-        total_fail += f;
-        total_confirmed += c;
-    }
+        },
+    );
     if outcomes.len() < 2 {
         vhcore::machinery_failure("vacuous: fewer than 2 distinct observed outcomes");
     }
-    if self_check == "not-run" || self_check.is_empty() {
-        vhcore::machinery_failure("Mode F = Mode A self-check did not run");
-    }
-    rep.set("evaluations", evals);
+    rep.set("evaluations", camp.evals);
     rep.set("distinct_nontrivial", encodings.len() as u64);
     rep.set(
         "rule",
@@ -123,21 +88,21 @@ fn run(a: &vhcore::Args) -> i32 {
     rep.set("max_edges", max_edges as u64);
     rep.set("values", cases.len() as u64);
     rep.set("values_also_run_in_release_profile", release_cases);
-    rep.set("profiles", json!(profiles.iter().map(|r| if *r { "release" } else { "debug" }).collect::<Vec<_>>()));
+    rep.set("stages", json!(camp.stages_done));
     rep.set("distinct_outcomes", outcomes.len() as u64);
-    rep.set("packages", packages as u64);
-    rep.set("packages_rebuilt_by_bisection", rebuilt as u64);
-    rep.set("failing_cases", total_fail as u64);
-    rep.set("failing_cases_confirmed_alone_modeA", total_confirmed as u64);
-    rep.set("modeF_equals_modeA", self_check);
-    rep.set("exhaustive", true);
+    rep.set("packages", camp.packages as u64);
+    rep.set("packages_rebuilt_by_bisection", camp.rebuilt as u64);
+    rep.set("failing_cases", camp.failing as u64);
+    rep.set("failing_cases_confirmed_alone_modeA", camp.confirmed as u64);
+    rep.set("modeF_equals_modeA", camp.self_check.clone());
+    rep.set("exhaustive", camp.exhaustive);
     rep.set("value_product_cap", cap as u64);
     for i in [0usize, cases.len() / 7, cases.len() / 3, cases.len() / 2, cases.len() - 1] {
         let c = &cases[i];
         rep.sample(json!({"type": c.ty.show(), "value": c.val.show(), "canonical": hex::encode(&c.canonical)}));
     }
     rep.assume("size of a type tree = number of edges (nodes − 1); leaves have size 0");
-    rep.assume("values: full cartesian product of the members' boundary values when it has ≤ cap elements, else the each-choice cover; nested types contribute their first `cap` values (abigen::values)");
+    rep.assume("values: full cartesian product of the members' boundary values when it has ≤ cap elements, else the each-choice cover; nested types contribute their first `cap` values; Vec<T>: empty, one-element, two-element and one three-element vector (abigen::values)");
     rep.assume("thorough: debug profile on the whole space, release profile on the types with ≤ 2 edges");
     rep.assume("script-main ReturnData variant of DESIGN C09 is not exercised (logs and in-program decode only)");
     rep.assume("reference encoder is not cross-checked against fuels-core (not a harness dependency)");
